@@ -54,7 +54,7 @@ func (c10) Run(c *wk.Case) {
 		p.Root = pg.Gen(gen.TList(gen.TInt), 0, true)
 	}
 	if c.Index%4 == 1 {
-		p = c10ConstProgram(c.Rng)
+		p = c10ConstProgram(c.Rng, true)
 		nargs = len(p.ArgNames)
 		c.Count("constant_container_programs", 1)
 	}
@@ -236,7 +236,7 @@ func (c10) Run(c *wk.Case) {
 // c10ConstProgram: a constant container (folded by the optimizer into one object shared by all evaluations of
 // the function, or bound by a let) is used by two operations that depend on the arguments, and its own string
 // form is part of the result: an operation that works in place on the shared object shows in a LATER evaluation.
-func c10ConstProgram(r interface{ IntN(int) int }) *gen.Program {
+func c10ConstProgram(r interface{ IntN(int) int }, hashMaps bool) *gen.Program {
 	I := func(v int64) *ref.Node { return ref.Int(v) }
 	id := ref.Id
 	x, n, s := id("x"), id("n"), id("s")
@@ -314,6 +314,10 @@ func c10ConstProgram(r interface{ IntN(int) int }) *gen.Program {
 		func() *ref.Node { return ref.Method(c, "list") },
 		func() *ref.Node { return ref.Method(c, "size") },
 		func() *ref.Node { return ref.Bin("=", c, ref.MapN([]string{"a", "b"}, []*ref.Node{n, I(2)})) },
+	}
+	if !hashMaps {
+		// an evaluated map iterates in the order of a Go map: its string form differs from call to call
+		mapConsts = append(mapConsts[:3], mapConsts[4:]...)
 	}
 	var cst *ref.Node
 	var ops []func() *ref.Node
